@@ -1,10 +1,11 @@
 import IofloModel.Model.Flo
+import IofloModel.Model.FloProg
 /-!
 # C08 — entry guards are never bypassed and refused transitions have no effect
 
-Model: `Model/Flo.lean`.  `checkEnter` / `frameCheckEnter` / `auxCheck` / `checkStart` transcribe
-`Framer.checkEnter`, `Frame.checkEnter` (beacts, then for every auxiliary the ownership test and
-`aux.checkStart()`), `Framer.checkStart`; `transit` = `Transiter.action`, `suspendStart` = the
+Model: `Model/Flo.lean`.  `checkEnter` / `checkEnterC` / `frameCheckEnter` / `auxCheck` / `auxClaim` /
+`checkStart` transcribe `Framer.checkEnter`, `Frame.checkEnter` (beacts, then for every auxiliary the ownership
+test, the `claimed` test of fix D3d and `aux.checkStart(claimed)`), `Framer.checkStart`; `transit` = `Transiter.action`, `suspendStart` = the
 `if aux.done:` branch of `Suspender.action`, `framerStep` = `Framer.makeRunner`.
 
 Needs are pure in the model (`Sem.need … : Bool`), so "checked" is a statement about the state in which the
@@ -20,39 +21,55 @@ variable {W : Type} (P : Prog) (sem : Sem W) (lo : Ops W)
 
 /-! ### what a passed check means -/
 
-theorem allM_true {α : Type} (p : α → Except Err Bool) (l : List α) (h : allM p l = .ok true) :
-    ∀ x, x ∈ l → p x = .ok true := by
-  induction l with
+theorem allC_some {α : Type} (p : List Frid → α → Except Err (Option (List Frid))) (l : List α)
+    (cl cl' : List Frid) (h : allC p l cl = .ok (some cl')) :
+    ∀ x, x ∈ l → ∃ c c', p c x = .ok (some c') := by
+  induction l generalizing cl with
   | nil => intro x hx; cases hx
   | cons y ys ih =>
     intro x hx
-    simp only [allM] at h
-    cases hy : p y with
+    simp only [allC] at h
+    cases hy : p cl y with
     | error e => simp [hy] at h
     | ok b =>
       cases b with
-      | false => simp [hy] at h
-      | true =>
+      | none => simp [hy] at h
+      | some c1 =>
         simp only [hy] at h
         rcases List.mem_cons.1 hx with e | hx'
-        · subst e; exact hy
-        · exact ih h x hx'
+        · subst e; exact ⟨cl, c1, hy⟩
+        · exact ih c1 h x hx'
 
 /-- the ownership test of `Frame.checkEnter`: `aux.main` is free, is this frame, or is a frame being exited -/
 def Available (s : St W) (f : Fid) (exits : List Fid) (aux : Frid) : Prop :=
   (s.fr aux).main = none ∨ (s.fr aux).main = some f ∨ ∃ m, (s.fr aux).main = some m ∧ m ∈ exits
 
-theorem auxCheck_true {f : Fid} {exits : List Fid} {s : St W} {aux : Frid}
-    (h : auxCheck lo f exits s aux = .ok true) : Available s f exits aux ∧ lo.checkStart aux s = .ok true := by
+theorem auxClaim_some {s : St W} {cl cl' : List Frid} {aux : Frid}
+    (h : auxClaim P lo s cl aux = .ok (some cl')) :
+    ((P.framer aux).original = true → aux ∉ cl) ∧ ∃ c, lo.checkStart aux c s = .ok (some cl') := by
+  unfold auxClaim at h
+  cases ho : (P.framer aux).original with
+  | false => simp only [ho, Bool.false_eq_true, if_false] at h; exact ⟨(fun hh => nomatch hh), ⟨cl, h⟩⟩
+  | true =>
+    simp only [ho, if_true] at h
+    by_cases hc : cl.contains aux = true
+    · rw [if_pos hc] at h; cases h
+    · rw [if_neg hc] at h
+      exact ⟨fun _ => by simpa using hc, ⟨_, h⟩⟩
+
+theorem auxCheck_some {f : Fid} {exits : List Fid} {s : St W} {cl cl' : List Frid} {aux : Frid}
+    (h : auxCheck P lo f exits s cl aux = .ok (some cl')) :
+    Available s f exits aux ∧ ((P.framer aux).original = true → aux ∉ cl) ∧
+      ∃ c, lo.checkStart aux c s = .ok (some cl') := by
   unfold auxCheck at h
   cases hm : (s.fr aux).main with
-  | none => simp only [hm] at h; exact ⟨Or.inl hm, h⟩
+  | none => simp only [hm] at h; exact ⟨Or.inl hm, auxClaim_some P lo h⟩
   | some m =>
     simp only [hm] at h
     by_cases hc : m ≠ f ∧ m ∉ exits
     · simp [hc] at h
     · simp only [hc, if_false] at h
-      refine ⟨?_, h⟩
+      refine ⟨?_, auxClaim_some P lo h⟩
       by_cases e : m = f
       · exact Or.inr (Or.inl (e ▸ hm))
       · right; right
@@ -62,14 +79,19 @@ theorem auxCheck_true {f : Fid} {exits : List Fid} {s : St W} {aux : Frid}
 
 /-- **a frame passes `Frame.checkEnter`** only if all its before-enter needs hold and each of its auxiliaries is
 available to it and passes its own `checkStart` (first-frame guards, recursively) -/
-theorem C08_frame_check {exits : List Fid} {s : St W} {f : Fid}
-    (h : frameCheckEnter P sem lo exits s f = .ok true) :
+theorem C08_frame_check {exits : List Fid} {s : St W} {cl cl' : List Frid} {f : Fid}
+    (h : frameCheckEnter P sem lo exits s cl f = .ok (some cl')) :
     needsHold sem (P.frame f).beacts s = true ∧
-    ∀ aux, aux ∈ (P.frame f).auxes → Available s f exits aux ∧ lo.checkStart aux s = .ok true := by
+    ∀ aux, aux ∈ (P.frame f).auxes →
+      Available s f exits aux ∧ ∃ c c', lo.checkStart aux c s = .ok (some c') := by
   unfold frameCheckEnter at h
   by_cases hn : needsHold sem (P.frame f).beacts s = true
   · simp only [hn, if_true] at h
-    exact ⟨hn, fun aux ha => auxCheck_true lo (allM_true _ _ h aux ha)⟩
+    refine ⟨hn, fun aux ha => ?_⟩
+    obtain ⟨c, c', hc⟩ := allC_some _ _ _ _ h aux ha
+    have r := auxCheck_some P lo hc
+    obtain ⟨c2, hc2⟩ := r.2.2
+    exact ⟨r.1, c2, c', hc2⟩
   · simp [hn] at h
 
 /-- **`Framer.checkEnter` passes** only for a non-empty list all of whose frames pass -/
@@ -77,19 +99,167 @@ theorem C08_check_enter {enters exits : List Fid} {s : St W}
     (h : checkEnter P sem lo enters exits s = .ok true) :
     enters ≠ [] ∧ ∀ f, f ∈ enters →
       needsHold sem (P.frame f).beacts s = true ∧
-      ∀ aux, aux ∈ (P.frame f).auxes → Available s f exits aux ∧ lo.checkStart aux s = .ok true := by
+      ∀ aux, aux ∈ (P.frame f).auxes →
+        Available s f exits aux ∧ ∃ c c', lo.checkStart aux c s = .ok (some c') := by
   unfold checkEnter at h
-  by_cases he : enters.isEmpty = true
-  · simp [he] at h
-  · simp only [he, if_false, Bool.false_eq_true] at h
-    refine ⟨fun e => he (by rw [e]; rfl), fun f hf => C08_frame_check P sem lo (allM_true _ _ h f hf)⟩
+  cases hc : checkEnterC P sem lo enters exits [] s with
+  | error e => simp [hc] at h
+  | ok r =>
+    cases r with
+    | none => simp [hc] at h
+    | some cl' =>
+      unfold checkEnterC at hc
+      by_cases he : enters.isEmpty = true
+      · simp [he] at hc
+      · simp only [he, if_false, Bool.false_eq_true] at hc
+        refine ⟨fun e => he (by rw [e]; rfl), fun f hf => ?_⟩
+        obtain ⟨c, c', hcc⟩ := allC_some _ _ _ _ hc f hf
+        exact C08_frame_check P sem lo hcc
 
 /-- nothing to enter is a refusal (`if not enters: return False`) -/
 theorem C08_empty_enters_refused (exits : List Fid) (s : St W) : checkEnter P sem lo [] exits s = .ok false := rfl
 
-/-- the auxiliaries' own check is the same check one level down: `checkStart` = `checkEnter(first.outline)` -/
-theorem C08_checkStart_unfold (i : Frid) (s : St W) :
-    (nextOps P sem lo).checkStart i s = checkEnter P sem lo (P.frame (P.framer i).first).outline [] s := rfl
+/-- the auxiliaries' own check is the same check one level down: `checkStart(claimed)` =
+`checkEnter(first.outline, claimed=claimed)` -/
+theorem C08_checkStart_unfold (i : Frid) (cl : List Frid) (s : St W) :
+    (nextOps P sem lo).checkStart i cl s = checkEnterC P sem lo (P.frame (P.framer i).first).outline [] cl s := rfl
+
+/-! ### one check never approves two entries of the same original auxiliary (fix D3d) -/
+
+/-- the claim of one `aux` clause -/
+def claimOf (P : Prog) (a : Frid) : List Frid := if (P.framer a).original then [a] else []
+
+/-- the original plain auxiliaries that the frames of `l` name directly, with multiplicity -/
+def directClaims (P : Prog) (l : List Fid) : List Frid :=
+  l.flatMap (fun f => (P.frame f).auxes.flatMap (claimOf P))
+
+/-- what is assumed of `checkStart` of the level below: it only appends to `claimed`, keeping it duplicate-free -/
+def ClaimSpec (lo : Ops W) : Prop :=
+  ∀ aux cl s cl', lo.checkStart aux cl s = .ok (some cl') → cl.Nodup → cl'.Nodup ∧ cl <+: cl'
+
+/-- a passed check that started with `cl`, ended with `cl'` and had to claim `need` on the way -/
+def Ext (cl cl' need : List Frid) : Prop := cl'.Nodup ∧ ∃ ext, cl' = cl ++ ext ∧ need.Sublist ext
+
+theorem allC_ext {α : Type} (p : List Frid → α → Except Err (Option (List Frid))) (claims : α → List Frid)
+    (hp : ∀ x cl cl', p cl x = .ok (some cl') → cl.Nodup → Ext cl cl' (claims x)) :
+    ∀ (l : List α) (cl cl' : List Frid), allC p l cl = .ok (some cl') → cl.Nodup →
+      Ext cl cl' (l.flatMap claims) := by
+  intro l
+  induction l with
+  | nil =>
+    intro cl cl' h hnd
+    simp only [allC, Except.ok.injEq, Option.some.injEq] at h
+    subst h
+    exact ⟨hnd, [], by simp, by simp⟩
+  | cons x xs ih =>
+    intro cl cl' h hnd
+    simp only [allC] at h
+    cases hx : p cl x with
+    | error e => simp [hx] at h
+    | ok b =>
+      cases b with
+      | none => simp [hx] at h
+      | some c1 =>
+        simp only [hx] at h
+        obtain ⟨hn1, e1, he1, hs1⟩ := hp x cl c1 hx hnd
+        obtain ⟨hn2, e2, he2, hs2⟩ := ih c1 cl' h hn1
+        refine ⟨hn2, e1 ++ e2, by rw [he2, he1, List.append_assoc], ?_⟩
+        rw [List.flatMap_cons]
+        exact hs1.append hs2
+
+theorem auxCheck_ext (hlo : ClaimSpec lo) (f : Fid) (exits : List Fid) (s : St W) (aux : Frid) (cl cl' : List Frid)
+    (h : auxCheck P lo f exits s cl aux = .ok (some cl')) (hnd : cl.Nodup) : Ext cl cl' (claimOf P aux) := by
+  have key : auxClaim P lo s cl aux = .ok (some cl') := by
+    unfold auxCheck at h
+    cases hm : (s.fr aux).main with
+    | none => simpa only [hm] using h
+    | some m =>
+      simp only [hm] at h
+      by_cases hc : m ≠ f ∧ m ∉ exits
+      · simp [hc] at h
+      · simpa only [hc, if_false] using h
+  unfold auxClaim at key
+  unfold claimOf
+  cases ho : (P.framer aux).original with
+  | false =>
+    simp only [ho, Bool.false_eq_true, if_false] at key ⊢
+    obtain ⟨hn, t, ht⟩ := hlo aux cl s cl' key hnd
+    exact ⟨hn, t, ht.symm, by simp⟩
+  | true =>
+    simp only [ho, if_true] at key ⊢
+    by_cases hc : cl.contains aux = true
+    · rw [if_pos hc] at key; cases key
+    · rw [if_neg hc] at key
+      have hni : aux ∉ cl := by simpa using hc
+      have hnd1 : (cl ++ [aux]).Nodup := by
+        rw [List.nodup_append]
+        refine ⟨hnd, by simp, ?_⟩
+        intro a ha b hb e
+        simp only [List.mem_singleton] at hb
+        subst hb; subst e; exact hni ha
+      obtain ⟨hn, t, ht⟩ := hlo aux (cl ++ [aux]) s cl' key hnd1
+      refine ⟨hn, [aux] ++ t, by rw [← ht, List.append_assoc], by simp⟩
+
+theorem checkEnterC_ext (hlo : ClaimSpec lo) (enters exits : List Fid) (s : St W) (cl cl' : List Frid)
+    (h : checkEnterC P sem lo enters exits cl s = .ok (some cl')) (hnd : cl.Nodup) :
+    Ext cl cl' (directClaims P enters) := by
+  unfold checkEnterC at h
+  by_cases he : enters.isEmpty = true
+  · simp [he] at h
+  · simp only [he, if_false, Bool.false_eq_true] at h
+    refine allC_ext _ (fun f => (P.frame f).auxes.flatMap (claimOf P)) ?_ enters cl cl' h hnd
+    intro f c c' hf hc
+    unfold frameCheckEnter at hf
+    by_cases hn : needsHold sem (P.frame f).beacts s = true
+    · simp only [hn, if_true] at hf
+      exact allC_ext _ (claimOf P) (fun a c1 c2 h1 h2 => auxCheck_ext P lo hlo f exits s a c1 c2 h1 h2) _ c c' hf hc
+    · simp [hn] at hf
+
+theorem claimSpec_next (hlo : ClaimSpec lo) : ClaimSpec (nextOps P sem lo) := by
+  intro aux cl s cl' h hnd
+  obtain ⟨hn, t, ht, _⟩ := checkEnterC_ext P sem lo hlo _ _ s cl cl' h hnd
+  exact ⟨hn, t, ht.symm⟩
+
+theorem claimSpec_opsAt : ∀ n, ClaimSpec (opsAt P sem n)
+  | 0 => by intro aux cl s cl' h; simp [opsAt, Ops.bottom] at h
+  | n + 1 => claimSpec_next P sem _ (claimSpec_opsAt n)
+
+/-- **no double claim.**  When `Framer.checkEnter(enters, exits)` passes, the original auxiliaries named by the
+`aux` clauses of the frames of `enters` are pairwise different clauses' auxiliaries: no original auxiliary is
+named twice (by two of the frames, or twice by one).  With the recursion through `aux.checkStart(claimed)` the
+same holds for the whole tree of auxiliaries about to be entered (`claimed` is one list for the whole check). -/
+theorem C08_claims_distinct (n : Nat) {enters exits : List Fid} {s : St W}
+    (h : checkEnter P sem (opsAt P sem n) enters exits s = .ok true) : (directClaims P enters).Nodup := by
+  unfold checkEnter at h
+  cases hc : checkEnterC P sem (opsAt P sem n) enters exits [] s with
+  | error e => simp [hc] at h
+  | ok r =>
+    cases r with
+    | none => simp [hc] at h
+    | some cl' =>
+      obtain ⟨hn, ext, he, hs⟩ := checkEnterC_ext P sem _ (claimSpec_opsAt P sem n) enters exits s [] cl' hc (by simp)
+      rw [List.nil_append] at he
+      subst he
+      exact hs.nodup hn
+
+/-- … in particular two different frames of `enters` that both name the original auxiliary `a` are refused -/
+theorem C08_shared_aux_refused (n : Nat) {enters exits : List Fid} {s : St W} {l1 l2 l3 : List Fid} {f g : Fid}
+    {a : Frid} (he : enters = l1 ++ f :: l2 ++ g :: l3) (ha : (P.framer a).original = true)
+    (hf : a ∈ (P.frame f).auxes) (hg : a ∈ (P.frame g).auxes) :
+    checkEnter P sem (opsAt P sem n) enters exits s ≠ .ok true := by
+  intro h
+  have hnd := C08_claims_distinct P sem n h
+  have hmem : ∀ k, a ∈ (P.frame k).auxes → a ∈ (P.frame k).auxes.flatMap (claimOf P) := by
+    intro k hk
+    rw [List.mem_flatMap]
+    exact ⟨a, hk, by simp [claimOf, ha]⟩
+  subst he
+  unfold directClaims at hnd
+  simp only [List.flatMap_append, List.flatMap_cons, List.append_assoc] at hnd
+  rw [List.nodup_append] at hnd
+  have h2 := hnd.2.1
+  rw [List.nodup_append] at h2
+  exact h2.2.2 a (hmem f hf) a (by simp [hmem g hg]) rfl
 
 /-! ### transitions -/
 
@@ -198,14 +368,14 @@ theorem C08_suspend_start_checked (i : Frid) (f : Fid) (needs : List NeedId) (au
     (s : St W) :
     suspendStart P sem lo i f needs aux tracts s =
       (if needsHold sem needs s = true ∧ ownedElsewhere aux f s = false then
-        match lo.checkStart aux s with
+        match lo.checkStart aux [] s with
         | .error e => .error e
-        | .ok false => .ok (false, s)
-        | .ok true => suspendEnter P sem lo i f aux tracts s
+        | .ok none => .ok (false, s)
+        | .ok (some _) => suspendEnter P sem lo i f aux tracts s
        else .ok (false, s)) := by
   unfold suspendStart
   cases hn : needsHold sem needs s <;> cases ho : ownedElsewhere aux f s <;> simp
-  cases lo.checkStart aux s with
+  cases lo.checkStart aux [] s with
   | error e => rfl
   | ok b => cases b <;> rfl
 
@@ -254,10 +424,42 @@ theorem C08_start_checks_first (i : Frid) (s : St W) (hd : isDown (s.fr i).statu
     | error e => rfl
     | ok s2 => rfl
 
+/-! ### update / change marks (the transit acts of `is updated` / `is changed` conditions)
+
+The marker acts are the `tracts` of the transition: `C08_transit_refused_is_noop` says they do not run when the
+transition is refused.  On the concrete store of `Model/FloProg.lean`: -/
+
+/-- a taken transition consumes the update: right after its transit marker ran, `is updated` is false -/
+theorem C08_mark_consumes_update (w : World) (sh key now : Nat) (h : ∀ st, w.stamp sh = some st → st ≤ now) :
+    updatedNeed ((CAct.markU sh key true).run now w).1 sh key = false := by
+  simp only [CAct.run, updatedNeed, World.setMark]
+  cases hs : w.stamp sh with
+  | none => rfl
+  | some st =>
+    have := h st hs
+    simp only [and_self, if_true]
+    have h1 : decide (st > now) = false := by simp; omega
+    simp [h1]
+
+/-- a transition that is refused leaves the update pending: in the unchanged store the condition still holds
+(with `C08_transit_refused_is_noop`: the state after a refusal *is* the state before) -/
+theorem C08_refused_keeps_update_pending (i : Frid) (f : Fid) (needs : List NeedId) (far : Fid) (tracts : List Act)
+    (s s' : St W) (n : NeedId) (h : transit P sem lo i f needs far tracts s = .ok (false, s')) :
+    sem.need n s'.frs s'.now s'.world = sem.need n s.frs s.now s.world := by
+  have := C08_transit_false_unchanged P sem lo i f needs far tracts s s' h
+  rw [this]
+
+/-- the enter marker of `in frame` does not hide a write made at the same time after it: the condition is
+true until a taken transition uses that time -/
+theorem C08_enter_mark_sees_same_time_write (w : World) (sh key now : Nat) (v : Int)
+    (hu : (w.mark sh key).used ≠ some now) :
+    updatedNeed ((((CAct.markU sh key false).run now w).1).set sh v now) sh key = true := by
+  simp [CAct.run, updatedNeed, World.setMark, World.set, hu]
+
 /-- non-vacuity: a frame with a failing `let` guard is refused -/
 example (s : St W) (f : Fid) (n : NeedId) (hb : (P.frame f).beacts = [n])
     (hn : sem.need n s.frs s.now s.world = false) :
     checkEnter P sem lo [f] [] s = .ok false := by
-  simp [checkEnter, allM, frameCheckEnter, needsHold, hb, hn]
+  simp [checkEnter, checkEnterC, allC, frameCheckEnter, needsHold, hb, hn]
 
 end Ioflo.Flo
